@@ -810,24 +810,130 @@ Proof.
   - apply sent_snoc; [apply (ai_sent _ _ H) | intros; discriminate].
 Qed.
 
-Lemma cls_eqb_eq a b : cls_eqb a b = true -> a = b.
+Lemma val_eqb_eq a b : val_eqb a b = true -> a = b.
 Proof. destruct a, b; simpl; intro H; try discriminate; try reflexivity; f_equal; lia. Qed.
 
+Lemma val_eqb_refl a : val_eqb a a = true.
+Proof. destruct a; simpl; rewrite ?Z.eqb_refl; reflexivity. Qed.
+
+Lemma cls_eqb_eq a b : cls_eqb a b = true -> a = b.
+Proof.
+  destruct a, b; simpl; intro H; try discriminate; try reflexivity.
+  - f_equal. apply val_eqb_eq. exact H.
+  - f_equal. lia.
+  - f_equal. apply Bool.eqb_prop. exact H.
+Qed.
+
 Lemma cls_eqb_refl a : cls_eqb a a = true.
-Proof. destruct a; simpl; try reflexivity; apply Z.eqb_refl. Qed.
+Proof.
+  destruct a; simpl; try reflexivity;
+    [apply val_eqb_refl | apply Z.eqb_refl | apply Bool.eqb_reflx].
+Qed.
+
+Lemma ty_eqb_refl t : ty_eqb t t = true.
+Proof. destruct t; reflexivity. Qed.
+
+Lemma body_eqb_refl b : body_eqb b b = true.
+Proof. destruct b; simpl; rewrite ?Z.eqb_refl; reflexivity. Qed.
+
+Lemma wire_eqb_refl w : wire_eqb w w = true.
+Proof. destruct w; simpl. rewrite !Z.eqb_refl, ty_eqb_refl, body_eqb_refl. reflexivity. Qed.
+
+Lemma pmsg_eqb_refl m : pmsg_eqb m m = true.
+Proof. destruct m; simpl; rewrite ?Z.eqb_refl; reflexivity. Qed.
 
 Lemma kind_eqb_refl k : kind_eqb k k = true.
-Proof. destruct k; simpl; try reflexivity; apply Z.eqb_refl. Qed.
+Proof.
+  destruct k; simpl; [rewrite !Z.eqb_refl, pmsg_eqb_refl; reflexivity | apply wire_eqb_refl].
+Qed.
+
+(* ---- the decoding, case by case *)
+
+Lemma decode_body_shape t b :
+  decode_body t b <> RTimeout /\ decode_body t b <> RNoService /\ decode_body t b <> ROther /\
+  forall e, decode_body t b <> RErr e.
+Proof. destruct t, b; simpl; repeat split; try intro; discriminate. Qed.
+
+Lemma decode_shape w : decode w <> RTimeout /\ decode w <> RNoService /\ decode w <> ROther.
+Proof.
+  destruct w as [c e t b]. unfold decode. destruct (c =? 0).
+  - destruct (decode_body_shape t b) as (A & B & C & _). auto.
+  - repeat split; discriminate.
+Qed.
+
+Lemma decode_exact c e t b :
+  (forall x, decode (Wire c e t b) = RErr x <-> c <> 0 /\ x = e) /\
+  (decode (Wire c e t b) = RNil <-> c = 0 /\ t = TyNone) /\
+  (forall v, decode (Wire c e t b) = RReply v <->
+     c = 0 /\ ((t = TyHello /\ exists i s, b = BFields i s /\ v = VHello i s) \/
+               (t = TyEmpty /\ b <> BJunk /\ v = VEmpty))) /\
+  (forall p, decode (Wire c e t b) = RBad p <->
+     c = 0 /\ ((p = false /\ t = TyUnknown) \/
+               (p = true /\ b = BJunk /\ (t = TyHello \/ t = TyEmpty)))) /\
+  decode (Wire c e t b) <> RTimeout /\ decode (Wire c e t b) <> RNoService /\
+  decode (Wire c e t b) <> ROther.
+Proof.
+  split; [|split; [|split; [|split]]].
+  - intro x. unfold decode. destruct (Z.eqb_spec c 0) as [->|N].
+    + split; [|intros [H _]; contradiction].
+      intro H. destruct (decode_body_shape t b) as (_ & _ & _ & D). exfalso. exact (D x H).
+    + split; [intro H; inv H; auto | intros [_ ->]; reflexivity].
+  - unfold decode. destruct (Z.eqb_spec c 0) as [->|N].
+    + split.
+      * intro H. split; [reflexivity|]. destruct t, b; simpl in H; try discriminate; reflexivity.
+      * intros [_ ->]. reflexivity.
+    + split; [discriminate | intros [H _]; contradiction].
+  - intro v. unfold decode. destruct (Z.eqb_spec c 0) as [->|N].
+    + split.
+      * intro H. split; [reflexivity|].
+        destruct t, b as [i s|]; simpl in H; try discriminate; inv H.
+        -- left. split; [reflexivity|]. exists i, s. split; reflexivity.
+        -- right. split; [reflexivity|]. split; [discriminate | reflexivity].
+      * intros (_ & [(-> & i & s & -> & ->) | (-> & B & ->)]); simpl; [reflexivity|].
+        destruct b as [i s|]; [reflexivity | exfalso; apply B; reflexivity].
+    + split; [discriminate | intros [H _]; contradiction].
+  - intro p. unfold decode. destruct (Z.eqb_spec c 0) as [->|N].
+    + split.
+      * intro H. split; [reflexivity|].
+        destruct t, b as [i s|]; simpl in H; try discriminate; inv H; auto 6.
+      * intros (_ & [(-> & ->) | (-> & -> & [->| ->])]); reflexivity.
+    + split; [discriminate | intros [H _]; contradiction].
+  - apply decode_shape.
+Qed.
+
+(* what the peer hands to Service.Response is what the callback receives: the message itself
+   (a typed nil pointer arrives as the zero message), nil for nil, and for an error code the
+   error text alone whatever message came with it *)
+Lemma roundtrip code info m :
+  cls_of (KAns code info m) =
+  if code =? 0
+  then match m with
+       | MNil => RNil
+       | MTypedNil => RReply (VHello 0 0)
+       | MHello i s => RReply (VHello i s)
+       | MEmpty => RReply VEmpty
+       end
+  else RErr info.
+Proof.
+  unfold cls_of, wire_of, encode. destruct (code =? 0) eqn:C.
+  - destruct m; reflexivity.
+  - simpl. rewrite C. reflexivity.
+Qed.
 
 Lemma cls_of_reply k : cls_of k <> RNoService /\ cls_of k <> RTimeout.
-Proof. destruct k; simpl; split; discriminate. Qed.
+Proof. destruct (decode_shape (wire_of k)) as (A & B & _). split; assumption. Qed.
+
+Lemma cls_of_not_other k : cls_of k <> ROther.
+Proof. destruct (decode_shape (wire_of k)) as (_ & _ & C). exact C. Qed.
 
 Lemma justified_reply tr t k :
   (exists a id n b, tr = a ++ EIssue t id n :: b ++ [EResp id k] /\ no_resp id b) ->
   justified tr t (cls_of k).
 Proof.
   intros (a & id & n & b & T & NR).
-  destruct k; simpl; exists a, id, n, b; eexists; (split; [exact T | split; [exact NR | reflexivity]]).
+  destruct (cls_of_reply k) as [N1 N2].
+  destruct (cls_of k) eqn:E; try contradiction; simpl;
+    exists a, id, n, b, k; (split; [exact T | split; [exact NR | symmetry; exact E]]).
 Qed.
 
 Lemma acc_idle_inv a a' tr e :
@@ -1760,6 +1866,55 @@ Lemma accepts_sound tr :
 Proof.
   unfold accepts. destruct (acc_from a0 tr) as [a|] eqn:E; [|discriminate]. intros _.
   pose proof (acceptor_sound tr a E). tauto.
+Qed.
+
+(* ---- the value received by the callback *)
+
+Lemma matching_value_exact tr : matching tr -> value_exact tr.
+Proof.
+  intros Hm pre t c post E RC. specialize (Hm pre t c post E).
+  destruct c; simpl in RC; try discriminate; simpl in Hm; exact Hm.
+Qed.
+
+Lemma matching_wellformed tr : matching tr -> values_wellformed tr.
+Proof.
+  intros Hm t I. apply in_split in I. destruct I as (pre & post & E).
+  specialize (Hm pre t ROther post E). simpl in Hm.
+  destruct Hm as (a & id & n & b & k & _ & _ & C).
+  exact (cls_of_not_other k (eq_sym C)).
+Qed.
+
+Lemma accepts_value tr : accepts tr = true -> value_exact tr /\ values_wellformed tr.
+Proof.
+  intro A. destruct (accepts_sound tr A) as (_ & _ & Hm & _).
+  split; [apply matching_value_exact | apply matching_wellformed]; exact Hm.
+Qed.
+
+Lemma model_value M ops :
+  1 <= M -> noclash (trace_g M ops) ->
+  value_exact (trace_g M ops) /\ values_wellformed (trace_g M ops).
+Proof.
+  intros P NC. pose proof (model_matching M ops P NC) as Hm.
+  split; [apply matching_value_exact | apply matching_wellformed]; exact Hm.
+Qed.
+
+(* an all-default reply, a typed nil pointer and a typed response with an empty body are
+   delivered as the non-nil zero message; nil only for the untyped nil; an error code wins over
+   whatever body travels with it *)
+Lemma value_boundaries :
+  cls_of (KAns 0 0 (MHello 0 0)) = RReply (VHello 0 0) /\
+  cls_of (KAns 0 0 MTypedNil) = RReply (VHello 0 0) /\
+  cls_of (KAns 0 0 MEmpty) = RReply VEmpty /\
+  cls_of (KAns 0 0 MNil) = RNil /\
+  (forall e, cls_of (KRaw (Wire 0 e TyHello (BFields 0 0))) = RReply (VHello 0 0)) /\
+  (forall e b, cls_of (KRaw (Wire 0 e TyUnknown b)) = RBad false) /\
+  (forall e b, cls_of (KRaw (Wire 0 e TyNone b)) = RNil) /\
+  (forall c e t b, c <> 0 -> cls_of (KRaw (Wire c e t b)) = RErr e) /\
+  (forall c e m, c <> 0 -> cls_of (KAns c e m) = RErr e).
+Proof.
+  repeat split; try reflexivity.
+  - intros c e t b N. unfold cls_of, wire_of, decode. destruct (Z.eqb_spec c 0); [contradiction | reflexivity].
+  - intros c e m N. rewrite roundtrip. destruct (Z.eqb_spec c 0); [contradiction | reflexivity].
 Qed.
 
 Lemma monitor_model ops : noclash (trace ops) -> monitor (ops, run ops) = true.
